@@ -1216,6 +1216,10 @@ func (g *Gen) genC07(n int) error {
 					last = t
 				}
 			}
+			if g.chance(0.06) {
+				// a target beyond every 32-bit document number ends the iteration
+				ops = append(ops, fmt.Sprintf("A%d", uint64(1)<<32+uint64(g.r.Intn(nd+2))), "N", "N")
+			}
 			line := fmt.Sprintf("q post %s %s %s ex=%s fl=%s", seg, field, hx(term), ex, fl)
 			if g.chance(0.7) {
 				line += fmt.Sprintf(" pl=p%d it=i%d", g.r.Intn(2), g.r.Intn(2))
